@@ -1,6 +1,6 @@
-(** C04 property theorems (proofs in Proofs_C04.v).  Model: Broadcast.v (transcription of _util.apply and of the
-    C++ normalisers); specification: BroadcastSpec.v. *)
-From AwkBroadcast Require Import Broadcast Proofs_C04.
+(** C04 property theorems (proofs in Proofs_C04.v, Proofs_C04_Model1..6.v).  Model: Broadcast.v (transcription of
+    _util.apply and of the C++ normalisers); specification: BroadcastSpec.v. *)
+From AwkBroadcast Require Import Broadcast Proofs_C04 Proofs_C04_Model1 Proofs_C04_Model2 Proofs_C04_Model5 Proofs_C04_Model6.
 
 (* (d) a missing value in any argument gives a missing result there *)
 Theorem none_propagates : forall op ar fuel args,
@@ -31,3 +31,60 @@ Theorem spec_result_has_deepest_structure : forall op fuel args rt r,
   has_shape rt r = true /\ rdepth rt = maxdepth (map fst args).
 Proof. exact (fun op fuel args rt r Ht Hv => conj (spec_shape op fuel args rt r Ht Hv) (spec_t_depth op false fuel _ rt Ht)). Qed.
 Print Assumptions spec_result_has_deepest_structure.
+
+(* ---- model = specification (refinement), two array inputs of the fragment [jag]: 1-d integer NumpyArray leaves under
+   ListOffsetArray / ListArray (any index width, offset origin, gaps, unreachable data) and IndexedOptionArray (not directly
+   inside another one).  [agrees m s]: s = Ok vs -> m = Ok vs;  s = Err e -> e = EValue and m = Err EValue (values AND
+   error status; no out-of-fuel on either side).  [obs r] = to_list of the layout the model returns.
+   [model_fuel_bound c1 c2] = number of nodes of c1 + number of nodes of c2 (every call of apply removes a node). ---- *)
+
+(* (a,b) apply on two arrays = the specification on the two arrays as variable-length lists (equal lengths required) *)
+Theorem model_refines_spec : forall op fuel c1 c2 vs1 vs2,
+  jag c1 = true -> jag c2 = true -> to_list c1 = Ok vs1 -> to_list c2 = Ok vs2 ->
+  (model_fuel_bound c1 c2 <= fuel)%nat ->
+  agrees (obs (Broadcast.apply op None fuel [MC c1; MC c2]))
+         (unlist (spec_v op false (S fuel) [arr_arg c1 vs1; arr_arg c2 vs2])).
+Proof. exact model_refines_spec_lemma. Qed.
+Print Assumptions model_refines_spec.
+
+(* the same on the model's own result: when the specification refuses, the model's computation itself fails with a value
+   error (it never returns an ill-formed layout); when it gives values, the model returns a layout with these values *)
+Theorem model_refines_spec_strong : forall op fuel c1 c2 vs1 vs2,
+  jag c1 = true -> jag c2 = true -> to_list c1 = Ok vs1 -> to_list c2 = Ok vs2 ->
+  (model_fuel_bound c1 c2 <= fuel)%nat ->
+  agrees_c (Broadcast.apply op None fuel [MC c1; MC c2])
+           (unlist (spec_v op false (S fuel) [arr_arg c1 vs1; arr_arg c2 vs2])).
+Proof. exact model_refines_spec_strong_lemma. Qed.
+Print Assumptions model_refines_spec_strong.
+
+Theorem model_never_out_of_fuel : forall op fuel c1 c2 vs1 vs2,
+  jag c1 = true -> jag c2 = true -> to_list c1 = Ok vs1 -> to_list c2 = Ok vs2 ->
+  (model_fuel_bound c1 c2 <= fuel)%nat ->
+  obs (Broadcast.apply op None fuel [MC c1; MC c2]) <> Err EFuel /\
+  unlist (spec_v op false (S fuel) [arr_arg c1 vs1; arr_arg c2 vs2]) <> Err EFuel.
+Proof. exact model_never_out_of_fuel_lemma. Qed.
+Print Assumptions model_never_out_of_fuel.
+
+(* the entry points: broadcast_and_apply (broadcast_pack, apply, broadcast_unpack) = spec_broadcast (type-level pass and
+   element-level pass on the packed arrays; a length-1 array is repeated).
+   PARTIAL: hypothesis [size1_vs_size0 c1 c2 = false] added (not: lengths 1 and 0, unless both are 1-d NumpyArrays).
+   Without it the statement is false (Proofs_C04_Model6.broadcast_refines_spec_refuted: [[1,2]] + empty array of lists;
+   known finding regular-size1-to-size0): apply's all-RegularArray branch does not repeat a size-1 dimension to size 0. *)
+Theorem broadcast_refines_spec_partial : forall op fuel c1 c2 vs1 vs2,
+  jag c1 = true -> jag c2 = true -> to_list c1 = Ok vs1 -> to_list c2 = Ok vs2 ->
+  (S (model_fuel_bound c1 c2) <= fuel)%nat ->
+  size1_vs_size0 c1 c2 = false ->
+  agrees (obs (broadcast_and_apply op None fuel [MC c1; MC c2]))
+         (spec_broadcast op false fuel [SArr (type_of c1) vs1; SArr (type_of c2) vs2]).
+Proof. exact broadcast_refines_spec_partial_lemma. Qed.
+Print Assumptions broadcast_refines_spec_partial.
+
+(* ... and on the excluded inputs they always differ in the same way: the model refuses, the specification returns [] *)
+Theorem size1_vs_size0_differs : forall op fuel c1 c2 vs1 vs2,
+  jag c1 = true -> jag c2 = true -> to_list c1 = Ok vs1 -> to_list c2 = Ok vs2 ->
+  (S (model_fuel_bound c1 c2) <= fuel)%nat ->
+  size1_vs_size0 c1 c2 = true ->
+  broadcast_and_apply op None fuel [MC c1; MC c2] = Err EValue /\
+  spec_broadcast op false fuel [SArr (type_of c1) vs1; SArr (type_of c2) vs2] = Ok [].
+Proof. exact size1_vs_size0_differs_lemma. Qed.
+Print Assumptions size1_vs_size0_differs.
